@@ -529,6 +529,13 @@ def summary {P : Proto} (w : World P) : List (List Bytes) × Nat :=
 def demoAccept6 : List (Move (proto6 false)) :=
   [.call .a [] .connect, .deliver .a 0 [] .exact] ++ traffic (proto6 false) .exact 2 1
 
+/-- `quiescent` when a side may still be in its handshake: everything submitted has been handed over;
+a side that is online has nothing unacknowledged or queued and requests no resend -/
+def World.quiescentH {P : Proto} (w : World P) : Prop :=
+  w.b.deliveredVital = w.a.submittedVital ∧ w.a.deliveredVital = w.b.submittedVital ∧
+  ∀ s o, P.online (w.get s).conn = some o → o.resendQueue = [] ∧ o.packet.chunks = [] ∧
+    o.requestResend = false
+
 /-- `World.quiescent` as a computable check -/
 def World.settled {P : Proto} (w : World P) : Bool :=
   w.b.deliveredVital == w.a.submittedVital && w.a.deliveredVital == w.b.submittedVital &&
